@@ -110,7 +110,7 @@ class Ctx:
     def rng(self, *key):
         import numpy as np
 
-        k = [self.seed, int(self.prop[1:]), self.shard] + [int(x) for x in key]
+        k = [self.seed, int(self.prop[1:]), int(self.spec.get("stream", self.shard))] + [int(x) for x in key]
         return np.random.default_rng(k)
 
     def scale(self, quick, thorough):
@@ -277,6 +277,8 @@ def run_shards(prop, tier, seed, specs, replay=None):
                 env.setdefault("OMP_NUM_THREADS", "1")
                 env.setdefault("OPENBLAS_NUM_THREADS", "1")
                 env.setdefault("MKL_NUM_THREADS", "1")
+                env["PVMON_SHARED"] = os.path.join(tmp, "shared")
+                os.makedirs(env["PVMON_SHARED"], exist_ok=True)
                 env["PVMON_SCRATCH"] = os.path.join(tmp, f"scratch{i}")
                 os.makedirs(env["PVMON_SCRATCH"], exist_ok=True)
                 cmd = [bootstrap.PYTHON, "-m", "pvmon.harness", prop, tier, str(seed), str(i), str(n),
@@ -324,6 +326,21 @@ def run_shards(prop, tier, seed, specs, replay=None):
             running = still
             if running:
                 time.sleep(0.2)
+        # cross-shard oracle (e.g. compiled vs interpreted results of the same cases)
+        if not replay:
+            try:
+                mod = load_check(prop)
+                cross = getattr(mod, "cross", None)
+                if cross:
+                    cctx = Ctx(prop, tier, seed, n, n, {"mode": "cross"})
+                    try:
+                        cross(cctx, os.path.join(tmp, "shared"))
+                    except Exception as e:
+                        cctx.inconclusive.append("cross-shard oracle crashed: " + "".join(
+                            traceback.format_exception(type(e), e, e.__traceback__))[-2000:])
+                    results.append(cctx.result())
+            except Exception as e:
+                pass
     finally:
         for (_i, _s, p, _o, log, _t) in running:
             try:
